@@ -57,6 +57,33 @@ class _AllAnyOfDisplay(ast.NodeTransformer):
 
     def visit_Call(self, node):
         self.generic_visit(node)
+        fn = ast.unparse(node.func)
+        if fn in ('itertools.filterfalse', 'filterfalse', 'filter') and \
+                len(node.args) == 2 and not node.keywords and isinstance(
+                    node.args[0], (ast.Name, ast.Attribute, ast.Lambda)) \
+                and not (isinstance(node.args[0], ast.Constant)):
+            # filter(f, xs) / filterfalse(f, xs): the generator expression
+            x = ast.Name(id='_flt_x', ctx=ast.Load())
+            pred = node.args[0]
+            if isinstance(pred, ast.Lambda) and len(
+                    pred.args.args) == 1 and not pred.args.defaults:
+                class _P(ast.NodeTransformer):
+                    def visit_Name(self, n, _a=pred.args.args[0].arg):
+                        return ast.Name(id='_flt_x', ctx=ast.Load()) \
+                            if n.id == _a else n
+                import copy
+                test = _P().visit(copy.deepcopy(pred.body))
+            elif isinstance(pred, ast.Lambda):
+                return node
+            else:
+                test = ast.Call(func=pred, args=[x], keywords=[])
+            if fn != 'filter':
+                test = ast.UnaryOp(op=ast.Not(), operand=test)
+            return ast.copy_location(ast.GeneratorExp(
+                elt=ast.Name(id='_flt_x', ctx=ast.Load()),
+                generators=[ast.comprehension(
+                    target=ast.Name(id='_flt_x', ctx=ast.Store()),
+                    iter=node.args[1], ifs=[test], is_async=0)]), node)
         if isinstance(node.func, ast.Name) and node.func.id in (
                 'all', 'any') and len(node.args) == 1 and \
                 not node.keywords and isinstance(
@@ -75,6 +102,32 @@ class _AllAnyOfDisplay(ast.NodeTransformer):
                 func=ast.Name(id='bool', ctx=ast.Load()), args=[val],
                 keywords=[]), node)
         return node
+
+    def visit_BoolOp(self, node):
+        # the selection idiom (A and K1) or (B and K2) or Z with truthy
+        # constants K: K1 if A else (K2 if B else Z).  (When A is falsy,
+        # `A and K1` is falsy and the `or` moves on; when A is truthy the
+        # value is K1, which is truthy and ends the `or`.)
+        self.generic_visit(node)
+        if not isinstance(node.op, ast.Or) or len(node.values) < 2:
+            return node
+
+        def pick(x):
+            if isinstance(x, ast.BoolOp) and isinstance(x.op, ast.And) and \
+                    isinstance(x.values[-1], ast.Constant) and \
+                    x.values[-1].value and x.values[-1].value is not True:
+                rest = x.values[:-1]
+                test = rest[0] if len(rest) == 1 else ast.BoolOp(
+                    op=ast.And(), values=rest)
+                return test, x.values[-1]
+            return None
+        picks = [pick(x) for x in node.values[:-1]]
+        if not all(picks):
+            return node
+        out = node.values[-1]
+        for test, k in reversed(picks):
+            out = ast.IfExp(test=test, body=k, orelse=out)
+        return ast.copy_location(out, node)
 
     def visit_JoinedStr(self, node):
         # f'{x}' with nothing around it and no conversion / format spec is
@@ -858,6 +911,46 @@ class Program:
                     'staticmethod', 'classmethod', 'property'))
                 and not (isinstance(d, ast.Attribute) and d.attr in (
                     'abstractmethod', 'setter'))]
+        if len(decs) == 1 and isinstance(decs[0], ast.Call) and \
+                not decs[0].keywords and not any(
+                    isinstance(a, ast.Starred) for a in decs[0].args):
+            # @factory(a, b): `def factory(...): def deco(fn): ...; return
+            # deco` - the decorator is the inner function, with the factory's
+            # parameters bound to the arguments written at the site
+            try:
+                q = self.resolve(finfo.module, decs[0].func)
+            except Exception:
+                return None
+            fac = self.functions.get(q) if isinstance(q, str) else None
+            if fac is None:
+                return None
+            inner = [n for n in fac.node.body
+                     if isinstance(n, ast.FunctionDef)]
+            rets = [n for n in fac.node.body if isinstance(n, ast.Return)]
+            rest = [n for n in fac.node.body if n not in inner
+                    and n not in rets and not (
+                        isinstance(n, ast.Expr)
+                        and isinstance(n.value, ast.Constant))]
+            if len(inner) != 1 or len(rets) != 1 or rest or not (
+                    isinstance(rets[0].value, ast.Name)
+                    and rets[0].value.id == inner[0].name):
+                return None
+            a = fac.node.args
+            if a.kwonlyargs or a.kwarg or a.defaults:
+                return None
+            names = [x.arg for x in a.posonlyargs + a.args]
+            args = list(decs[0].args)
+            if len(args) < len(names) or (len(args) > len(names)
+                                          and not a.vararg):
+                return None
+            bind = dict(zip(names, args))
+            if a.vararg:
+                bind[a.vararg.arg] = ast.Tuple(elts=args[len(names):],
+                                               ctx=ast.Load())
+            r = self._plain_wrapper(finfo, inner[0])
+            if r is None:
+                return None
+            return r[0], r[1], bind
         if len(decs) != 1 or not isinstance(decs[0], (ast.Name,
                                                       ast.Attribute)):
             return None
@@ -868,6 +961,19 @@ class Program:
         d = self.functions.get(q) if isinstance(q, str) else None
         if d is None or len(d.params) != 1:
             return None
+        return self._plain_wrapper(finfo, d.node)
+
+    def _plain_wrapper(self, finfo, dnode):
+        """dnode: `def deco(fn): def wrapper(<finfo's parameters>): ...;
+        return wrapper`"""
+        dparams = [x.arg for x in dnode.args.posonlyargs + dnode.args.args]
+        if len(dparams) != 1:
+            return None
+
+        class _D:
+            node = dnode
+            params = dparams
+        d = _D
         inner = [n for n in d.node.body if isinstance(n, ast.FunctionDef)]
         rets = [n for n in d.node.body if isinstance(n, ast.Return)]
         if len(inner) != 1 or len(rets) != 1 or not (
